@@ -52,10 +52,12 @@ def run(res, tier, seed):
                        "build (link-time --wrap counters) must return to its pre-call value plus the blocks of a returned "
                        "matrix; distinct by (build, op, shape class, placement)")
     engine.proof_part(res, PROOFS)
-    n = 8 if tier == "quick" else 60
-    for v in [vlib.variant(name="asan", san="asan", opt="-O1")] + ([vlib.variant(name="asan-nosse", san="asan", opt="-O1", sse2=0)] if tier == "thorough" else []):
+    n = n_full = 8 if tier == "quick" else 60
+    for v in [vlib.variant(name="asan", san="asan", opt="-O1"), vlib.variant(name="asan-nosse", san="asan", opt="-O1", sse2=0)]:
         runner = corr.Runner(v)
         g = gen.G(seed)
+        # the build without SSE2 (scalar kernels, other #if branches) gets a reduced share in the quick tier
+        n = n_full if (tier == "thorough" or v["sse2"]) else max(2, n_full // 3)
         cases = [ops.build(name, g, None, 140) for name in OPS for _ in range(n)]
         cases += [ops.build(name, g, lambda role: {"wo": g.rng.choice([1, 3])}, 100) for name in OPS for _ in range(max(2, n // 2))]
         cases += [ops.build(name, g, lambda role: {"wo": g.rng.choice([0, 2])}, 100) for name in OPS for _ in range(max(2, n // 2))]
@@ -83,6 +85,7 @@ def run(res, tier, seed):
                 res.violation(vlib.write_replay("C11", c.meta.get("op", "x"), "# C11: fate %s in build %s\nmeta: %r\n--- script\n%s--- C side\n%s\n%s\n" % (
                     fate, v["name"], c.meta, c.text(), "\n".join(x[:300] for x in (o[1] if o else [])), o[2] if o else "")))
         res.cov.setdefault("fates", {})[v["name"]] = {f: sum(1 for c in cases if (cout.get(c.id) or ("MISSING",))[0] == f) for f in set((cout.get(c.id) or ("MISSING",))[0] for c in cases)}
+    n = n_full
     # the block-recursive PLE (Schur complement, _mzd_compress_l word moves) and what is built on it, under the sanitizers:
     # only a small-L3 build enters the recursion at sizes a sanitized run can afford
     vs = vlib.variant(name="asan-stress", san="asan", opt="-O1", l1=4096, l2=32768, l3=4096)
@@ -129,6 +132,10 @@ def run(res, tier, seed):
     # path, also when a block has no pivot): rank-deficient inputs with zero column blocks
     wide_ops = [nm for nm in ("ple", "pluq", "_ple_russian", "_pluq_russian", "kernel_left_pluq", "solve_left", "echelonize_pluq") if nm in ops.CATALOG]
     cases += [ops.build(name, g, None, 720) for name in wide_ops for _ in range(max(4, n // 2))]
+    # early exits (empty kernel: full column rank; inconsistent or padded systems; rank 0): the paths on which a
+    # temporary is most easily left behind - many small cases
+    exit_ops = [nm for nm in ("kernel_left_pluq", "solve_left", "pluq_solve_left", "echelonize_pluq", "inv_m4ri") if nm in ops.CATALOG]
+    cases += [ops.build(name, g, None, 70) for name in exit_ops for _ in range(3 * n)]
     cout = runner.run_c(cases, env={"VERIF_BALANCE": "1"})
     seen = set()
     for c in cases:
